@@ -71,7 +71,8 @@ def _make_crs(
 
     crs_str = str(crs)
     crs_str_u = crs_str.upper()
-    if crs_str_u.startswith("EPSG:"):
+    # compound definitions like "EPSG:4326+5773" are not a single EPSG code
+    if crs_str_u.startswith("EPSG:") and crs_str_u[5:].isdigit():
         crs_str = crs_str_u
         epsg = int(crs_str.split(":", 1)[1])
 
